@@ -86,7 +86,7 @@ PROPS = {
     },
     "C07": {
         "modules": ["CambrianModel.Props.C07"],
-        "theorems": ["Cambrian.Props.C07_finished_not_killed", "Cambrian.Props.C07_timeout", "Cambrian.Props.C07_paths",
+        "theorems": ["Cambrian.Props.C07_finished_not_killed", "Cambrian.Props.C07_timeout", "Cambrian.Props.C07_timeout_reaped", "Cambrian.Props.C07_paths",
                      "Cambrian.Props.C07_accounted", "Cambrian.Props.C07_dropped", "Cambrian.Props.C07_nothing_dropped_after_abort"],
         "correspondences": ["proc"],
         "trusted": PROC_TRUST + CTL_TRUST,
